@@ -304,6 +304,28 @@ def check_part(res, ap, orig_part, rp, opname, policy, update_ids, orig_objs):
                 res.violation("U1-signatures", opname, "visit %d (measure %d) of the result has clef %s on staff %d, the measure has %s" % (i_ + 1, m + 1, gc, stf, wc), site="clef")
                 return
         o_ += ms[m]["e"] - ms[m]["s"]
+    # U1 objects: what starts inside a visited measure (directions, tempo marks, slurs, tuplets) occurs once per visit at
+    # the shifted position
+    want_o, o_ = [], 0
+    per_measure = {}
+    for cls in (S.Direction, S.Tempo, S.Slur, S.Tuplet):
+        for x in orig_part.iter_all(cls, include_subclasses=True):
+            for mi, mm in enumerate(ms):
+                if mm["s"] <= x.start.t < mm["e"]:
+                    per_measure.setdefault(mi, []).append((type(x).__name__, x.start.t - mm["s"], (x.end.t - x.start.t) if (x.end is not None and cls in (S.Slur, S.Tuplet)) else None))
+    for m in seq:
+        for (cn, dt, ln) in per_measure.get(m, []):
+            want_o.append((cn, o_ + dt, ln))
+        o_ += ms[m]["e"] - ms[m]["s"]
+    got_o = []
+    for cls in (S.Direction, S.Tempo, S.Slur, S.Tuplet):
+        for x in rp.iter_all(cls, include_subclasses=True):
+            got_o.append((type(x).__name__, x.start.t - t0, (x.end.t - x.start.t) if (x.end is not None and cls in (S.Slur, S.Tuplet)) else None))
+    if sorted(got_o, key=repr) != sorted(want_o, key=repr):
+        miss = [x for x in want_o if x not in got_o][:3]
+        extra = [x for x in got_o if x not in want_o][:3]
+        only_len = sorted(x[:2] for x in got_o) == sorted(x[:2] for x in want_o)
+        res.violation("U1-objects", opname, "objects starting in the visited measures %s: missing %s, unexpected %s (class, position, length)" % (seq, miss, extra), site="span-length" if only_len else ("missing:" + miss[0][0] if miss else "extra:" + extra[0][0]))
     # U2 no brackets / jumps
     for cls in (S.Repeat, S.Ending, S.DaCapo, S.DalSegno, S.ToCoda):
         if any(True for _ in rp.iter_all(cls)):
